@@ -46,6 +46,9 @@ impl Updater<'_> {
     let starting_height = u32::try_from(self.index.client.get_block_count()?).unwrap() + 1;
     let starting_index_height = self.height;
 
+    #[cfg(feature = "verif")]
+    crate::verif::point("update.start", self.height.into(), 0);
+
     wtx
       .open_table(WRITE_TRANSACTION_STARTING_BLOCK_COUNT_TO_TIMESTAMP)?
       .insert(
@@ -86,6 +89,9 @@ impl Updater<'_> {
         &mut utxo_cache,
       )?;
 
+      #[cfg(feature = "verif")]
+      crate::verif::point("update.block_indexed", self.height.into(), 0);
+
       if let Some(progress_bar) = &mut progress_bar {
         progress_bar.inc(1);
 
@@ -108,6 +114,8 @@ impl Updater<'_> {
         utxo_cache = HashMap::new();
         uncommitted = 0;
         wtx = self.index.begin_write()?;
+        #[cfg(feature = "verif")]
+        crate::verif::point("update.rebegin", self.height.into(), 0);
         let height = wtx
           .open_table(HEIGHT_TO_BLOCK_HEADER)?
           .range(0..)?
@@ -118,6 +126,8 @@ impl Updater<'_> {
         if height != self.height {
           // another update has run between committing and beginning the new
           // write transaction
+          #[cfg(feature = "verif")]
+          crate::verif::point("update.yield", self.height.into(), height.into());
           break;
         }
         wtx
@@ -145,6 +155,9 @@ impl Updater<'_> {
     if uncommitted > 0 {
       self.commit(wtx, utxo_cache)?;
     }
+
+    #[cfg(feature = "verif")]
+    crate::verif::point("update.end", self.height.into(), 0);
 
     if let Some(progress_bar) = &mut progress_bar {
       progress_bar.finish_and_clear();
@@ -319,6 +332,9 @@ impl Updater<'_> {
   ) -> Result<()> {
     Reorg::detect_reorg(&block, self.height, self.index)?;
 
+    #[cfg(feature = "verif")]
+    crate::verif::point("block.start", self.height.into(), 0);
+
     let start = Instant::now();
     let mut sat_ranges_written = 0;
     let mut outputs_in_block = 0;
@@ -348,6 +364,9 @@ impl Updater<'_> {
         &mut outputs_in_block,
       )?;
     }
+
+    #[cfg(feature = "verif")]
+    crate::verif::point("block.mid", self.height.into(), 0);
 
     if self.index.index_runes && self.height >= self.index.settings.first_rune_height() {
       let mut outpoint_to_rune_balances = wtx.open_table(OUTPOINT_TO_RUNE_BALANCES)?;
@@ -389,6 +408,9 @@ impl Updater<'_> {
     }
 
     height_to_block_header.insert(&self.height, &block.header.store())?;
+
+    #[cfg(feature = "verif")]
+    crate::verif::point("block.end", self.height.into(), 0);
 
     self.height += 1;
     self.outputs_traversed += outputs_in_block;
@@ -660,6 +682,9 @@ impl Updater<'_> {
         let vout = u32::try_from(vout).unwrap();
         utxo_cache.insert(OutPoint { txid: *txid, vout }, output_utxo_entry);
       }
+
+      #[cfg(feature = "verif")]
+      crate::verif::point("block.tx", self.height.into(), u64::try_from(tx_offset).unwrap());
     }
 
     if index_inscriptions {
@@ -837,6 +862,9 @@ impl Updater<'_> {
       self.outputs_cached
     );
 
+    #[cfg(feature = "verif")]
+    crate::verif::point("commit.start", self.height.into(), 0);
+
     {
       let mut outpoint_to_utxo_entry = wtx.open_table(OUTPOINT_TO_UTXO_ENTRY)?;
       let mut script_pubkey_to_outpoint = wtx.open_multimap_table(SCRIPT_PUBKEY_TO_OUTPOINT)?;
@@ -871,13 +899,21 @@ impl Updater<'_> {
     Index::increment_statistic(&wtx, Statistic::SatRanges, self.sat_ranges_since_flush)?;
     self.sat_ranges_since_flush = 0;
     Index::increment_statistic(&wtx, Statistic::Commits, 1)?;
+    #[cfg(feature = "verif")]
+    crate::verif::point("commit.before_first", self.height.into(), 0);
     wtx.commit()?;
+    #[cfg(feature = "verif")]
+    crate::verif::point("commit.after_first", self.height.into(), 0);
 
     // Commit twice since due to a bug redb will only reuse pages freed in the
     // transaction before last.
     self.index.begin_write()?.commit()?;
+    #[cfg(feature = "verif")]
+    crate::verif::point("commit.after_second", self.height.into(), 0);
 
     Reorg::update_savepoints(self.index, self.height)?;
+    #[cfg(feature = "verif")]
+    crate::verif::point("commit.end", self.height.into(), 0);
 
     Ok(())
   }
